@@ -64,6 +64,19 @@ pub fn eval_for(pid: &'static str) -> impl Fn(&[u8]) -> Sigs {
         if pid == "C09" && sigs.is_empty() {
             sigs.extend(squawk_shown(buf));
         }
+        // one frame in 32 (by content): the decoded fields survive the crate's serde presentation,
+        // and for velocity reports the text form is the one the reference renderer builds from
+        // the decoded fields (the vertical rate of airspeed reports exists in the text only)
+        if sigs.is_empty() && matches!(pid, "C07" | "C08" | "C10") && buf.iter().fold(0u32, |a, x| a.wrapping_mul(31).wrapping_add(*x as u32)) % 32 == 0 {
+            if let Some(m) = crate::configs::serde_frame(buf) {
+                sigs.push((format!("{pid}/serde/{}", refdec::class_of(buf)), m));
+            }
+            if pid == "C07" && sigs.is_empty() {
+                for (sig, msg) in crate::render::eval_c11(buf).0 {
+                    sigs.push((sig.replacen("C11/", "C07/shown/", 1), msg));
+                }
+            }
+        }
         sigs
     }
 }
